@@ -83,6 +83,32 @@ func FaceAdd(slot int) Op {
 	}}
 }
 
+// FaceProbe is what a forwarding or management thread does with a face id it got from a packet or
+// a command: look the face up in the face table and in the dispatch table and use its id. A face
+// that can be found must already carry the id it was found under. (The face table and the dispatch
+// table are two structures and Add() is not atomic over both - the property does not ask for that -
+// so the result reports only a face found under an id it does not carry.)
+func FaceProbe() Op {
+	return Op{"FaceProbe", "FaceProbe()", func(yield func()) string {
+		out := []string{}
+		for id := uint64(10); id < 13; id++ {
+			if l := face.FaceTable.Get(id); l != nil {
+				yield()
+				if l.FaceID() != id {
+					out = append(out, fmt.Sprintf("table[%d].FaceID()=%d", id, l.FaceID()))
+				}
+			}
+			if d := dispatch.GetFace(id); d != nil {
+				yield()
+				if d.FaceID() != id {
+					out = append(out, fmt.Sprintf("dispatch[%d].FaceID()=%d", id, d.FaceID()))
+				}
+			}
+		}
+		return strings.Join(out, ",")
+	}}
+}
+
 // FaceDownOwn tears down the face this thread added in slot.
 func FaceDownOwn(slot int) Op {
 	return Op{"FaceDown", fmt.Sprintf("FaceDownOwn(#%d)", slot), func(func()) string {
@@ -234,6 +260,7 @@ func All(thorough bool) []Scenario {
 		"A2": {FaceAdd(1), FaceDownOwn(1)},
 		"F1": {FaceDown(1)},
 		"F2": {FaceDown(2)},
+		"P1": {FaceProbe()},
 		"L1": {Lookup("/a/b")},
 		"L2": {Lookup("/a/zz"), LookupStrategy("/a/b")},
 		"L3": {Lookup("/a/b/c"), Lookup("/a")},
@@ -247,7 +274,7 @@ func All(thorough bool) []Scenario {
 	// Dataset listings (fib/list, rib/list) are not among the operations the property names
 	// (registration/removal, face teardown, FIB/strategy updates, forwarding lookups); they are
 	// used only to observe the final state.
-	isReader := func(k string) bool { return k[0] == 'L' }
+	isReader := func(k string) bool { return k[0] == 'L' || k[0] == 'P' }
 	for i, a := range keys {
 		for _, b := range keys[i+1:] {
 			if isReader(a) && isReader(b) {
